@@ -27,24 +27,45 @@ TRUSTED_BASE = [
     "Lean 4.33 kernel; axioms per theorem audited on every run (subset of propext, Classical.choice, Quot.sound)",
     "hand-written model Model/ChgMult.lean of chgmult.py:299-556 (integer scope), tied by differential correspondence on the generated stream",
     "harness/c05.py generators and the Python oracle",
+    "entry-point routes (from_arrays, from_input_arrays, from_arrays domain qmvz, Molecule(**schema), from_string psi4 text, "
+    "Molecule.from_data(text)) are tied to the model only through the direct call: route answer == validate_and_fill_chgmult answer "
+    "on Z*real (tested, sampled), direct answer == model (tested); the harness' own translation of a case into atoms / schema / psi4 text",
     "numpy np.split / np.sum semantics are folded into the model as list split / integer sum",
 ]
 ASSUMPTIONS = [
     "integer electron counts, charges and multiplicities (the property's scope); fractional charges are outside the model",
     "list arguments have one entry per fragment (from_arrays guarantees it)",
+    "zero_ghost_fragments=True is reachable only through validate_and_fill_chgmult, from_arrays and from_input_arrays; Molecule, from_schema "
+    "and from_string never set it, so those routes are compared with the flag off",
+    "text route: psi4 'chg mult' lines carry charge and multiplicity together, so only specifications with (c,m) and each (fc_k,fm_k) both given "
+    "or both absent are sent as text; Molecule route: for a ONE-fragment molecule a fragment list with an unspecified entry is not Molecule "
+    "input (typed List[float]; pydantic rejects the None) and is left out",
+    "known finding (own kind, narrow predicate): Molecule.from_data(text) of a one-fragment system reports the total multiplicity as the "
+    "fragment multiplicity when the caller supplied a different one",
 ]
 LEVEL_TEXT = (
     "proof. Every clause of the property is a theorem about the model for any number of fragments and any electron counts (soundness w.r.t. the "
     "rules, refusal instead of a violating answer, acceptance of valid full specifications, idempotence including the ghost-rewriting branch, "
     "the default for an unspecified input); the model is tied to chgmult.py by exhaustive (1 fragment) and sampled (2-4 fragments) differential "
-    "correspondence, directly and through from_arrays, plus an independent Python statement of the rules evaluated on every answer."
+    "correspondence, directly and through from_arrays, plus an independent Python statement of the rules evaluated on every answer. "
+    "The same rules, the error class, agreement with the direct call, repeat-call determinism on reused argument objects (with a call under the "
+    "other flag in between) and feed-back idempotence are also evaluated on a stratified sample of all blocks, both flags, through every public "
+    "entry point that completes charges/multiplicities (from_arrays, from_input_arrays, qmvz domain, Molecule, psi4 text); that part is "
+    "testing, not proof (partial: sampled)."
 )
 TECHNIQUE = "Lean 4 proofs by list induction / first-match search lemmas over a hand-written model + line-protocol correspondence + rule oracle"
 RULE = (
     "cases = (per-fragment zeff lists, c, fc[], m, fm[], zero_ghost_fragments); exhaustive blocks for 1 fragment over "
     "z in 0..ZMAX, c/fc in {None,-3..3}, m/fm in {None,1..6}; 2 fragments exhaustive over a smaller scope (thorough) or sampled; "
-    "3-4 fragments sampled; plus a malformed-multiplicity stream (0, negative, float-typed). A case is distinct by its full "
-    "input tuple and non-trivial when at least one slot is unspecified or the outcome is an error."
+    "3-4 fragments sampled; plus a malformed-multiplicity stream (0, negative, float-typed); block E = same arguments with the flag on/off; "
+    "block G = ghost-rich systems (1-4 fragments, multi-atom ghosts) whose ghost slots and totals are specified so that zero_ghost_fragments "
+    "has values to override, each with the flag on and off. A case is distinct by its full "
+    "input tuple and non-trivial when at least one slot is unspecified or the outcome is an error. "
+    "Route stream: a stratified sample of every block (incl. flag-on cases) is turned into atoms (z>0 -> real atom Z=z, 0 -> ghost atom of "
+    "varying Z) and sent, as ONE call sequence sharing the caller's argument objects, in shuffled order through from_arrays, from_input_arrays, "
+    "from_arrays(domain='qmvz'), Molecule(**schema) and (when expressible) psi4 text via from_string / Molecule.from_data, in one of four "
+    "spellings of the arguments (ints, float-typed, wholly-unspecified lists omitted, numpy/tuple containers); per call: rules, error class, "
+    "== direct call, repeat call (optionally after a call with the other flag), completed assignment fed back through the same route."
 )
 
 _devnull = io.StringIO()
@@ -97,6 +118,12 @@ def enc(case):
             "1" if zgf else "0",
         ]
     )
+
+
+def dec(line):
+    fr, c, fc, m, fm, z = line.split("|")
+    o = lambda s: None if s.strip() == "N" else int(s)  # noqa
+    return ([[int(x) for x in f.split(",") if x] for f in fr.split(";")], o(c), [o(x) for x in fc.split()], o(m), [o(x) for x in fm.split()], z.strip() == "1")
 
 
 def oracle(case, res):
@@ -248,6 +275,36 @@ def gen_cases(ctx: Ctx):
         frags = [[rng.randint(0, 12)] for _ in range(n)]
         badm = [None, 0, -1, -3, 1, 2]
         yield "D", (frags, rng.choice(CH), [rng.choice(CH) for _ in range(n)], rng.choice(badm), [rng.choice(badm) for _ in range(n)], False)
+    # --- block G: ghost-rich systems whose ghost slots and totals ARE specified (so that zero_ghost_fragments really has
+    #     something to override), 1-4 fragments, single- and multi-atom ghosts, each with the flag on and off
+    for _ in range(ctx.scale(1500, 10000)):
+        n = rng.choice([1, 2, 2, 3, 3, 4])
+        frags = []
+        for _k in range(n):
+            r = rng.random()
+            if r < 0.45:
+                frags.append([0] * rng.randint(1, 3))
+            elif r < 0.6:
+                f = [0, rng.randint(1, 10)]
+                rng.shuffle(f)
+                frags.append(f)
+            else:
+                frags.append([rng.randint(1, 20)])
+        if all(any(z for z in f) for f in frags):
+            frags[rng.randrange(n)] = [0]
+        pg, pr = rng.choice([0.2, 0.5]), rng.choice([0.9, 0.6])  # P(unspecified) on ghost / real slots
+
+        def pick3(vals, ghost):
+            return None if rng.random() < (pg if ghost else pr) else rng.choice(vals)
+
+        gh = [all(z == 0 for z in f) for f in frags]
+        c = None if rng.random() < 0.5 else rng.choice(CH[1:])
+        m = None if rng.random() < 0.6 else rng.choice(MU[1:])
+        fc = [pick3([-2, -1, 0, 0, 1, 2, 3], gh[k]) for k in range(n)]
+        fm = [pick3([1, 1, 2, 3, 4], gh[k]) for k in range(n)]
+        first = rng.random() < 0.7
+        yield "G", (frags, c, fc, m, fm, first)
+        yield "G", (frags, c, fc, m, fm, not first)
 
 
 def check_case(ctx, out: Outcome, block, case, model_line):
@@ -312,6 +369,20 @@ def float_typed_stream(ctx, out: Outcome):
             out.violations.append(Finding("oracle:float_typed", {"case": enc((frags, c, fc, m, fm, False))}, observed=b, expected=a, detail="float-typed integers change the answer"))
 
 
+def _from_arrays_plain(zs, real, seps, geom, c, fc, m, fm):
+    import qcelemental as qcel
+
+    try:
+        with contextlib.redirect_stdout(io.StringIO()):
+            rec = qcel.molparse.from_arrays(
+                geom=np.array(geom), elez=zs, real=real, fragment_separators=seps, molecular_charge=c,
+                fragment_charges=fc, molecular_multiplicity=m, fragment_multiplicities=fm, units="Bohr",
+            )
+        return canon_impl(("ok", rec))
+    except Exception as e:  # noqa
+        return "err " + err_class(e)
+
+
 def through_from_arrays(ctx, out: Outcome):
     """The caller passes Z*real as electron counts (from_arrays.py:379-392)."""
     import qcelemental as qcel
@@ -339,15 +410,7 @@ def through_from_arrays(ctx, out: Outcome):
         m = rng.choice([None, None, 1, 2, 3])
         fm = [rng.choice([None, None, 1, 2, 3]) for _ in range(n)]
         direct = canon_impl(call_impl(frags, c, fc, m, fm, False))
-        try:
-            with contextlib.redirect_stdout(io.StringIO()):
-                rec = qcel.molparse.from_arrays(
-                    geom=np.array(geom), elez=zs, real=real, fragment_separators=seps, molecular_charge=c,
-                    fragment_charges=fc, molecular_multiplicity=m, fragment_multiplicities=fm, units="Bohr",
-                )
-            via = canon_impl(("ok", rec))
-        except Exception as e:  # noqa
-            via = "err " + err_class(e)
+        via = _from_arrays_plain(zs, real, seps, geom, c, fc, m, fm)
         out.evaluations += 1
         out.count("via_from_arrays")
         if via != direct:
@@ -390,6 +453,261 @@ def route_cases_through_from_arrays(ctx, out: Outcome, cases):
                         detail="from_arrays(Z*real) differs from validate_and_fill_chgmult on the same specification" + ("; rules broken: " + "; ".join(bad) if bad else "")))
 
 
+# ----------------------------------------------------------------------------------------------------------------------
+# Entry-point routes: the same specification completed through every public way of building a molecule.
+#
+# The property speaks about *whenever* charges/multiplicities are completed (observe_at: validate_and_fill_chgmult and
+# the four fields of any molecule built by from_arrays / Molecule).  Every route below hands the specification
+# (Z*real electron counts, c, fc, m, fm[, zero_ghost_fragments]) to the completion and returns its four fields; so for
+# each route the property demands: a returned assignment obeys the rules (oracle()), a failure is a validation error,
+# the same input gives the same answer (= the answer of the direct call, and the same answer when called again with
+# the very same argument objects, also after an intervening call with the other flag), and the completed assignment
+# fed back through the same route is returned unchanged.
+GHOST_Z = [2, 1, 3, 10, 7, 18]  # atomic numbers given to ghost atoms (their electrons must not count)
+FLAG_ROUTES = ["from_arrays", "from_input_arrays", "from_arrays_qmvz"]  # accept zero_ghost_fragments
+PLAIN_ROUTES = ["molecule", "from_string", "molecule_from_string"]  # never zero ghosts (flag is not reachable)
+N_FORMS = 4
+FIELDS = ["molecular_charge", "fragment_charges", "molecular_multiplicity", "fragment_multiplicities"]
+
+
+def atoms_of(frags):
+    """z>0 -> one real atom of atomic number z; 0 -> one ghost atom of some non-zero atomic number."""
+    zs, real = [], []
+    for f in frags:
+        for z in f:
+            zs.append(int(z) if z > 0 else GHOST_Z[len(zs) % len(GHOST_Z)])
+            real.append(bool(z > 0))
+    seps = [int(x) for x in np.cumsum([len(f) for f in frags])[:-1]]
+    geom = [[0.3 * (i % 3), 0.25 * i, 3.0 * i] for i in range(len(zs))]
+    return zs, real, seps, geom
+
+
+def string_routable(case):
+    """psi4 text gives charge and multiplicity together ('c m' lines): both or neither, multiplicities printable as >= 1."""
+    frags, c, fc, m, fm, _ = case
+    pairs = [(c, m)] + list(zip(fc, fm))
+    return all((a is None) == (b is None) for a, b in pairs) and all(b is None or b >= 1 for _, b in pairs)
+
+
+def psi4_text(frags, c, fc, m, fm):
+    import qcelemental as qcel
+
+    zs, real, _seps, geom = atoms_of(frags)
+    blocks, i = [], 0
+    for k, f in enumerate(frags):
+        lines = []
+        if fc[k] is not None:
+            lines.append(f"{int(fc[k])} {int(fm[k])}")
+        for _z in f:
+            sym = qcel.periodictable.to_E(zs[i])
+            lines.append("{}{} {!r} {!r} {!r}".format("" if real[i] else "@", sym, *geom[i]))
+            i += 1
+        blocks.append("\n".join(lines))
+    head = f"{int(c)} {int(m)}\n--\n" if c is not None else ""
+    return head + "\n--\n".join(blocks) + "\nunits bohr\n"
+
+
+def build_args(case, form):
+    """The caller's argument objects for one specification, in one of N_FORMS equivalent spellings.  Built once per case
+    and handed (the very same objects) to every call of the sequence."""
+    frags, c, fc, m, fm, _ = case
+    zs, real, seps, geom = atoms_of(frags)
+    a = {"zs": list(zs), "real": list(real), "seps": list(seps), "geom": [list(g) for g in geom], "c": c, "m": m,
+         "fc": list(fc), "fm": list(fm)}
+    if form == 1:  # float-typed integers
+        fl = lambda x: None if x is None else float(x)  # noqa
+        a.update(c=fl(c), m=fl(m), fc=[fl(x) for x in fc], fm=[fl(x) for x in fm])
+    elif form == 2:  # wholly unspecified lists are left out
+        if all(x is None for x in fc):
+            a["fc"] = None
+        if all(x is None for x in fm):
+            a["fm"] = None
+    elif form == 3:  # numpy / tuple containers
+        a["seps"] = np.array(seps, dtype=int)
+        a["zs"] = np.array(zs)
+        a["real"] = np.array(real)
+        a["geom"] = np.array(geom)
+        a["fc"] = tuple(fc)
+        a["fm"] = tuple(fm)
+    return a
+
+
+def _snapshot(a):
+    return repr({k: (np.asarray(v).tolist() if isinstance(v, np.ndarray) else v) for k, v in sorted(a.items())})
+
+
+def route_call(route, a, zgf, case):
+    """One call of one route with the argument objects `a`.  Returns ('ok', {four fields}) or ('err', class)."""
+    import qcelemental as qcel
+
+    try:
+        with contextlib.redirect_stdout(io.StringIO()):
+            if route == "from_arrays":
+                rec = qcel.molparse.from_arrays(
+                    geom=a["geom"], elez=a["zs"], real=a["real"], fragment_separators=a["seps"], units="Bohr",
+                    molecular_charge=a["c"], fragment_charges=a["fc"], molecular_multiplicity=a["m"],
+                    fragment_multiplicities=a["fm"], zero_ghost_fragments=zgf, verbose=0)
+            elif route == "from_input_arrays":
+                rec = qcel.molparse.from_input_arrays(
+                    geom=a["geom"], elez=a["zs"], real=a["real"], fragment_separators=a["seps"], units="Bohr",
+                    molecular_charge=a["c"], fragment_charges=a["fc"], molecular_multiplicity=a["m"],
+                    fragment_multiplicities=a["fm"], zero_ghost_fragments=zgf, verbose=0,
+                    enable_efp=bool(len(a["zs"]) % 2), missing_enabled_return_efp="none")["qm"]
+            elif route == "from_arrays_qmvz":
+                gu = [[repr(float(x)) for x in g] for g in np.asarray(a["geom"]).tolist()]
+                rec = qcel.molparse.from_arrays(
+                    domain="qmvz", geom_unsettled=gu, variables=[], elez=a["zs"], real=a["real"],
+                    fragment_separators=a["seps"], units="Bohr", molecular_charge=a["c"], fragment_charges=a["fc"],
+                    molecular_multiplicity=a["m"], fragment_multiplicities=a["fm"], zero_ghost_fragments=zgf, verbose=0)
+            elif route == "molecule":
+                assert not zgf
+                zs = [int(z) for z in a["zs"]]
+                seps = [0] + [int(x) for x in a["seps"]] + [len(zs)]
+                d = {"symbols": [qcel.periodictable.to_E(z) for z in zs], "geometry": np.asarray(a["geom"], dtype=float).ravel(),
+                     "real": [bool(x) for x in a["real"]], "fragments": [list(range(seps[k], seps[k + 1])) for k in range(len(seps) - 1)]}
+                for key, v in (("molecular_charge", a["c"]), ("molecular_multiplicity", a["m"]),
+                               ("fragment_charges", a["fc"]), ("fragment_multiplicities", a["fm"])):
+                    if v is None:
+                        continue
+                    # Molecule types the fragment lists as List[float]/List[int]: for a single-fragment molecule a list
+                    # with an unspecified entry is not Molecule input (pydantic rejects the None); leave it out instead
+                    if key.startswith("fragment_") and len(seps) == 2 and any(x is None for x in v):
+                        continue
+                    d[key] = v
+                mol = qcel.models.Molecule(**d)
+                rec = {k: getattr(mol, k) for k in FIELDS}
+            elif route in ("from_string", "molecule_from_string"):
+                assert not zgf
+                frags, c, fc, m, fm, _ = case
+                text = psi4_text(frags, c, fc, m, fm)
+                if route == "from_string":
+                    rec = qcel.molparse.from_string(text, dtype="psi4", verbose=0)["qm"]
+                else:
+                    mol = qcel.models.Molecule.from_data(text, dtype="psi4")
+                    rec = {k: getattr(mol, k) for k in FIELDS}
+            else:
+                raise RuntimeError("unknown route " + route)
+            rec = {k: rec[k] for k in FIELDS}
+    except (RuntimeError, AssertionError):
+        raise
+    except Exception as e:  # noqa
+        return ("err", err_class(e))
+    return ("ok", rec)
+
+
+def single_fragment_multiplicity_dropped(route, case, observed, expected):
+    """The one class in which the unchanged library loses a supplied value on a route: a ONE-fragment system given as
+    text to Molecule.from_data with total multiplicity m and fragment multiplicity f != m both supplied and accepted as
+    is by the completion (expected = `ok c c m f`); Molecule drops the fragment lists of a one-fragment molecule
+    (_filter_defaults) and then reports [m].  Exactly that and nothing else: observed must be `ok c c m m`."""
+    frags, c, fc, m, fm, zgf = case
+    if route != "molecule_from_string" or zgf or len(frags) != 1 or m is None or fm[0] is None or fm[0] == m:
+        return False
+    e = expected.split()
+    if len(e) != 5 or e[0] != "ok" or e[3] != str(int(m)) or e[4] != str(int(fm[0])):
+        return False
+    return observed == "ok {} {} {} {}".format(e[1], e[2], e[3], e[3])
+
+
+def known_predicate(finding: Finding, entry) -> bool:
+    """A recorded finding is tolerated only if the finding itself (re-derived from its case, not from its label) lies in
+    the class the entry describes."""
+    if entry.get("kind") != "oracle:molecule_from_string_single_fragment_multiplicity" or finding.kind != entry.get("kind"):
+        return False
+    cs = finding.case if isinstance(finding.case, dict) else {}
+    try:
+        case = dec(cs["case"])
+    except Exception:  # noqa
+        return False
+    return single_fragment_multiplicity_dropped(cs.get("route"), case, finding.observed, finding.expected)
+
+
+def routes_on_case(ctx, out: Outcome, case, form, order_seed, only=None):
+    """One call sequence on one specification: all applicable routes in a shuffled order, sharing the argument objects."""
+    import random as _random
+
+    frags, c, fc, m, fm, zgf = case
+    lrng = _random.Random(order_seed)
+    routes = [(r, zgf) for r in FLAG_ROUTES] + [("molecule", False)]
+    if string_routable(case):
+        routes += [("from_string", False)] + ([("molecule_from_string", False)] if lrng.random() < 0.25 else [])
+    if only:
+        routes = [x for x in routes if x[0] in only] or routes
+    lrng.shuffle(routes)
+    a = build_args(case, form)
+    before = _snapshot(a)
+    direct = {}
+    for flag in {f for _, f in routes}:
+        direct[flag] = canon_impl(call_impl(frags, c, fc, m, fm, flag))
+
+    def where(route, flag):
+        return {"case": enc((frags, c, fc, m, fm, flag)), "stream": "routes", "route": route, "form": form, "order": order_seed}
+
+    for route, flag in routes:
+        ecase = (frags, c, fc, m, fm, flag)
+        res = route_call(route, a, flag, ecase)
+        cv = canon_impl(res)
+        out.evaluations += 1
+        out.count("route:" + route + (":zgf" if flag else ""))
+        if flag and any(all(z == 0 for z in f) for f in frags) and (
+                c is not None or m is not None or any(x is not None and (fc[k], fm[k]) != (0, 1) for k, f in enumerate(frags) if all(z == 0 for z in f) for x in (fc[k], fm[k]))):
+            out.count("route_ghost_override_active")
+        if single_fragment_multiplicity_dropped(route, ecase, cv, direct[flag]):
+            # genuine defect of the unchanged library (see known_findings.json C05-molecule-from-string-single-fragment-mult):
+            # reported under its own kind, never folded into the general clauses
+            out.violations.append(Finding("oracle:molecule_from_string_single_fragment_multiplicity", where(route, flag), observed=cv, expected=direct[flag],
+                                          detail="Molecule.from_data(<text>) of a one-fragment system returns the total multiplicity as the fragment's multiplicity although the caller supplied a different (rule-abiding) one"))
+            continue
+        if res[0] == "err" and res[1] != "Validation":
+            out.violations.append(Finding("oracle:route_error_class", where(route, flag), observed=cv, expected=direct[flag],
+                                          detail=f"completion through {route} raised {res[1]}, not a validation error"))
+        if res[0] == "ok":
+            for msg in oracle(ecase, res):
+                out.violations.append(Finding("oracle:route_rules", where(route, flag), observed=cv, expected=direct[flag],
+                                              detail=f"assignment returned through {route} breaks the rules: {msg}"))
+        if cv != direct[flag] and not (res[0] == "err" and res[1] != "Validation"):
+            out.violations.append(Finding("oracle:route_agreement", where(route, flag), observed=cv, expected=direct[flag],
+                                          detail=f"{route} does not give the answer validate_and_fill_chgmult gives on the same specification (Z*real)"))
+        # same input, same answer: the very same argument objects again, after a call with the other flag where there is one
+        recheck = lrng.random() < 0.5
+        if recheck and route in FLAG_ROUTES and lrng.random() < 0.6:
+            route_call(route, a, not flag, (frags, c, fc, m, fm, not flag))
+        again = canon_impl(route_call(route, a, flag, ecase)) if recheck else cv
+        out.evaluations += int(recheck)
+        if again != cv:
+            out.violations.append(Finding("oracle:route_determinism", where(route, flag), observed=again, expected=cv,
+                                          detail=f"{route} called again with the same argument objects answers differently" + ("" if _snapshot(a) == before else " (the caller's arguments were modified)")))
+        # completed assignment fed back through the same route
+        if res[0] == "ok":
+            r = res[1]
+            bcase = (frags, r["molecular_charge"], list(r["fragment_charges"]), r["molecular_multiplicity"], list(r["fragment_multiplicities"]), flag)
+            bint = all(float(x) == int(float(x)) for x in [bcase[1], bcase[3]] + bcase[2] + bcase[4])
+            if bint and (route not in ("from_string", "molecule_from_string") or string_routable(bcase)):
+                bcase = (frags, int(bcase[1]), [int(x) for x in bcase[2]], int(bcase[3]), [int(x) for x in bcase[4]], flag)
+                back = canon_impl(route_call(route, build_args(bcase, form), flag, bcase))
+                out.evaluations += 1
+                if back != cv:
+                    out.violations.append(Finding("oracle:route_idempotence", where(route, flag), observed=back, expected=cv,
+                                                  detail=f"completed assignment fed back through {route} is not returned unchanged"))
+
+
+def route_stream(ctx, out: Outcome, cases):
+    """Stratified sample of the generated cases (all blocks, both flags) through every entry point."""
+    rng = ctx.rng
+    quota = {"A1": (400, 4000), "A2": (250, 3000), "B1": (0, 4000), "B2": (1500, 12000), "C": (900, 8000), "E": (800, 8000),
+             "D": (250, 2000), "G": (2400, 20000)}
+    byblock = {}
+    for b, c in cases:
+        if b == "A1" and c[0] != [[0]] and rng.random() < 0.9:
+            continue  # keep all-ghost single fragments (the only A1 cases with the flag), thin out the rest
+        byblock.setdefault(b, []).append(c)
+    for b in sorted(byblock):
+        pool = byblock[b]
+        rng.shuffle(pool)
+        for case in pool[: ctx.scale(*quota.get(b, (0, 0)))]:
+            routes_on_case(ctx, out, case, rng.randrange(N_FORMS), rng.randrange(1 << 30))
+
+
 def run(ctx: Ctx) -> Outcome:
     out = Outcome()
     cases = list(gen_cases(ctx))
@@ -401,22 +719,38 @@ def run(ctx: Ctx) -> Outcome:
     float_typed_stream(ctx, out)
     through_from_arrays(ctx, out)
     route_cases_through_from_arrays(ctx, out, cases)
+    route_stream(ctx, out, cases)
     out.exhaustive = False
-    out.notes.append("block A1 is exhaustive over its stated scope; blocks A2,B2,C,D sampled from VERIF_SEED")
+    out.notes.append("block A1 is exhaustive over its stated scope; blocks A2,B2,C,D,E,G and the route stream sampled from VERIF_SEED")
     return out
 
 
 def replay(ctx: Ctx, case) -> Outcome:
     out = Outcome()
     line = case["case"] if isinstance(case, dict) and "case" in case else case
-    if isinstance(line, dict):  # from_arrays route
+    if isinstance(line, dict) and "elez" in line:  # through_from_arrays finding: re-run exactly that call
+        zs, real, seps = line["elez"], line["real"], line["seps"]
+        bounds = [0] + list(seps) + [len(zs)]
+        frags = [[(zs[i] if real[i] else 0) for i in range(bounds[k], bounds[k + 1])] for k in range(len(bounds) - 1)]
+        direct = canon_impl(call_impl(frags, line["c"], line["fc"], line["m"], line["fm"], False))
+        via = _from_arrays_plain(zs, real, seps, [[3.0 * i, 0.1 * i, 0.0] for i in range(len(zs))], line["c"], line["fc"], line["m"], line["fm"])
+        out.evaluations += 1
+        if via != direct:
+            out.violations.append(Finding("oracle:from_arrays_zeff", line, observed=via, expected=direct,
+                                          detail="from_arrays does not complete chg/mult as validate_and_fill_chgmult does on Z*real"))
+        return out
+    if isinstance(line, dict):
         return run(ctx)
-    fr, c, fc, m, fm, z = line.split("|")
-    o = lambda s: None if s.strip() == "N" else int(s)  # noqa
-    cs = ([[int(x) for x in f.split(",") if x] for f in fr.split(";")], o(c), [o(x) for x in fc.split()], o(m), [o(x) for x in fm.split()], z.strip() == "1")
+    cs = dec(line)
     ml = ctx.run_model(DRIVER, [enc(cs)])[0] if ctx.model_available else None
     check_case(ctx, out, "replay", cs, ml)
-    if isinstance(case, dict) and case.get("route") == "from_arrays":
+    if isinstance(case, dict) and case.get("stream") == "routes":
+        # the recorded call sequence (same spelling of the arguments, same order), then every other spelling
+        routes_on_case(ctx, out, cs, int(case.get("form", 0)), int(case.get("order", 0)))
+        if not out.violations:
+            for form in range(N_FORMS):
+                routes_on_case(ctx, out, cs, form, int(case.get("order", 0)) + 1 + form)
+    elif isinstance(case, dict) and case.get("route") == "from_arrays":
         ctx.rng.shuffle = lambda x: None  # keep the single case
         route_cases_through_from_arrays(ctx, out, [("B2", cs)])
     return out
